@@ -167,7 +167,13 @@ def step (s : St) (ws : List String) : St × String :=
     let parseSigned (t : List String) : Option (Tx × Bool) :=
       match t with
       | k :: inner =>
-        if k == "sig:nofrom" then (parseTx inner).map (fun x => (noSender x, false))
+        if k.startsWith "hdr:" then
+          -- a transaction without (or with a zero) receiver: outside the model, a failed receipt the signer pays for
+          (parseTx inner).map (fun x => (match x with
+            | .xfer f _ _ => .bvm f "?hdr" "?" []
+            | .ibtp s _ _ => .bvm s "?hdr" "?" []
+            | .bvm s _ _ _ => .bvm s "?hdr" "?" [], true))
+        else if k == "sig:nofrom" then (parseTx inner).map (fun x => (noSender x, false))
         else if k.startsWith "sig:" then (parseTx inner).map (fun x => (x, k == "sig:ok")) else (parseTx t).map (fun x => (x, true))
       | [] => none
     let txs := (splitTxs rest).map parseSigned
